@@ -16,7 +16,7 @@ ATTR_MENU = [a for a in G.SUPPORTED_FACTORY_ATTRS]
 
 def plan(tier):
     return {
-        'level': 'exploration', 'shards': 16, 'budget_s': 120 if tier == 'quick' else 700,
+        'level': 'exploration', 'shards': 16, 'budget_s': 240 if tier == 'quick' else 700,
         'rule': 'sequences of Set/Modify/DeleteAttribute (1.x index form, 2.0 current/new/reference '
                 'form) over every attribute name of the rule table plus custom names, index absent / 0 / '
                 'in range / out of range / negative, on all seven object types, interleaved with other '
